@@ -1568,4 +1568,171 @@ theorem tickCircuit_fires {c : Cfg} {n r : Nat} {sw : Bool} {e : Entry} (hr : e.
   unfold tickCircuit
   simp [pop_fires hr hle]
 
+/-! ### a received cell only refreshes the entries of its own circuit -/
+
+/-- as `LastKept`, except possibly for entries stored under key `k` -/
+def LastKeptExcept (k : Nat) (t t' : Tbl) : Prop :=
+  ∀ p' ∈ t', p'.1 = k ∨ ∃ p ∈ t, p.1 = p'.1 ∧ p.2.last = p'.2.last
+
+theorem LastKept.except {t t' : Tbl} (h : LastKept t t') (k : Nat) : LastKeptExcept k t t' :=
+  fun p hp => Or.inr (h p hp)
+
+theorem LastKeptExcept.refl (k : Nat) (t : Tbl) : LastKeptExcept k t t := (LastKept.refl t).except k
+
+theorem LastKeptExcept.trans {k : Nat} {a b d : Tbl} (h1 : LastKeptExcept k a b) (h2 : LastKeptExcept k b d) :
+    LastKeptExcept k a d := by
+  intro p hp
+  rcases h2 p hp with hk | ⟨q, hq, k1, l1⟩
+  · exact Or.inl hk
+  · rcases h1 q hq with hk | ⟨r, hr, k2, l2⟩
+    · exact Or.inl (k1 ▸ hk)
+    · exact Or.inr ⟨r, hr, k2.trans k1, l2.trans l1⟩
+
+theorem LastKeptExcept.modify (t : Tbl) (i : Nat) (f : Entry → Entry) : LastKeptExcept i t (t.modify i f) := by
+  intro p hp
+  unfold Tbl.modify at hp
+  rw [List.mem_map] at hp
+  obtain ⟨q, hq, rfl⟩ := hp
+  by_cases hc : (q.1 == i && !q.2.gone) = true
+  · simp only [hc, if_true]
+    simp at hc
+    exact Or.inl hc.1
+  · simp only [hc, Bool.false_eq_true, ↓reduceIte]
+    exact Or.inr ⟨q, hq, rfl, rfl⟩
+
+theorem LastKeptExcept.put (t : Tbl) (i : Nat) (e : Entry) : LastKeptExcept i t (t.put i e) := by
+  intro p hp
+  unfold Tbl.put at hp
+  rcases List.mem_cons.mp hp with rfl | hp
+  · exact Or.inl rfl
+  · exact Or.inr ⟨p, (List.mem_filter.mp hp).1, rfl, rfl⟩
+
+theorem LastKept.modify1 (t : Tbl) (i : Nat) (f : Entry → Entry) (hf : ∀ e, (f e).last = e.last) :
+    LastKept t (t.modify1 i f) := by
+  induction t with
+  | nil => intro p hp; cases hp
+  | cons q r ih =>
+    unfold Tbl.modify1
+    by_cases hc : (q.1 == i && !q.2.gone) = true
+    · simp only [hc, if_true]
+      intro p hp
+      rcases List.mem_cons.mp hp with rfl | hp
+      · exact ⟨q, List.mem_cons_self, rfl, (hf q.2).symm⟩
+      · exact ⟨p, List.mem_cons_of_mem _ hp, rfl, rfl⟩
+    · simp only [hc, Bool.false_eq_true, ↓reduceIte]
+      intro p hp
+      rcases List.mem_cons.mp hp with rfl | hp
+      · exact ⟨p, List.mem_cons_self, rfl, rfl⟩
+      · obtain ⟨p0, h0, k0, l0⟩ := ih p hp
+        exact ⟨p0, List.mem_cons_of_mem _ h0, k0, l0⟩
+
+/-- relay path of `process_cell`: only the opposite route's heart is beaten -/
+theorem onCell_relay_touches {c : Cfg} (s : Node) (id : Nat) (early plain ok : Bool) (body : Body) (nr : Entry)
+    (hn : s.relays.get id = some nr) :
+    LastKeptExcept nr.other s.relays (s.onCell c id early plain ok body).relays ∧
+    (s.onCell c id early plain ok body).circuits = s.circuits ∧
+    (s.onCell c id early plain ok body).exits = s.exits := by
+  unfold Node.onCell
+  simp only [hn]
+  split
+  · exact ⟨LastKeptExcept.modify _ _ _, rfl, rfl⟩
+  · exact ⟨((LastKept.modify1 s.relays id (Entry.fwd early) (fun _ => rfl)).except _).trans
+           (LastKeptExcept.modify _ _ _), rfl, rfl⟩
+
+theorem onCreate_touches {c : Cfg} (s : Node) (id peer : Nat) :
+    (s.onCreate c id peer).circuits = s.circuits ∧ LastKeptExcept id s.exits (s.onCreate c id peer).exits := by
+  unfold Node.onCreate
+  split
+  · exact ⟨rfl, LastKeptExcept.refl _ _⟩
+  · split
+    · exact ⟨rfl, LastKeptExcept.refl _ _⟩
+    · split
+      · exact ⟨rfl, LastKeptExcept.refl _ _⟩
+      · exact ⟨rfl, LastKeptExcept.put _ _ _⟩
+
+theorem onOurs_touches {c : Cfg} (s : Node) (id ident : Nat) (ok : Bool) (next : Option (Nat × Nat)) :
+    LastKeptExcept id s.circuits (s.onOurs c id ident ok next).circuits ∧
+    (s.onOurs c id ident ok next).exits = s.exits := by
+  unfold Node.onOurs
+  split
+  · split
+    · split
+      · exact ⟨LastKeptExcept.modify _ _ _, rfl⟩
+      · exact ⟨LastKeptExcept.refl _ _, rfl⟩
+    · exact ⟨LastKeptExcept.refl _ _, rfl⟩
+  · exact ⟨LastKeptExcept.refl _ _, rfl⟩
+
+theorem onCreated_touches {c : Cfg} (s : Node) (id ident : Nat) (ok : Bool) (next : Option (Nat × Nat)) :
+    LastKeptExcept id s.circuits (s.onCreated c id ident ok next).circuits ∧
+    LastKeptExcept id s.exits (s.onCreated c id ident ok next).exits := by
+  unfold Node.onCreated
+  split
+  · simp only
+    split
+    · exact ⟨LastKeptExcept.refl _ _, LastKeptExcept.refl _ _⟩
+    · split
+      · exact ⟨LastKeptExcept.refl _ _, LastKeptExcept.refl _ _⟩
+      · exact ⟨LastKeptExcept.refl _ _, (LastKept.modify _ _ _ (remove_last c _ _)).except _⟩
+  · have := onOurs_touches (c := c) s id ident ok next
+    exact ⟨this.1, this.2 ▸ LastKeptExcept.refl _ _⟩
+
+theorem dispatch_touches {c : Cfg} (s : Node) (id src : Nat) (body : Body) :
+    LastKeptExcept id s.circuits (s.dispatch c id src body).circuits ∧
+    LastKeptExcept id s.exits (s.dispatch c id src body).exits := by
+  unfold Node.dispatch
+  cases body with
+  | junk => exact ⟨LastKeptExcept.refl _ _, LastKeptExcept.refl _ _⟩
+  | other => exact ⟨LastKeptExcept.refl _ _, LastKeptExcept.refl _ _⟩
+  | pong => exact ⟨LastKeptExcept.refl _ _, LastKeptExcept.refl _ _⟩
+  | create peer =>
+    have := onCreate_touches (c := c) s id peer
+    exact ⟨this.1 ▸ LastKeptExcept.refl _ _, this.2⟩
+  | created ident ok next => exact onCreated_touches s id ident ok next
+  | extended ident ok next =>
+    have := onOurs_touches (c := c) s id ident ok next
+    exact ⟨this.1, this.2 ▸ LastKeptExcept.refl _ _⟩
+  | extend reqId toId toPeer candOk =>
+    simp only
+    unfold Node.onExtend
+    split
+    · exact ⟨LastKeptExcept.refl _ _, LastKeptExcept.refl _ _⟩
+    · simp only
+      split
+      · exact ⟨LastKeptExcept.refl _ _, LastKeptExcept.refl _ _⟩
+      · exact ⟨LastKeptExcept.refl _ _, LastKeptExcept.refl _ _⟩
+  | ping =>
+    simp only
+    split
+    · exact ⟨LastKeptExcept.refl _ _, LastKeptExcept.modify _ _ _⟩
+    · exact ⟨LastKeptExcept.refl _ _, LastKeptExcept.refl _ _⟩
+  | data sent =>
+    simp only
+    split
+    · exact ⟨LastKeptExcept.refl _ _, LastKeptExcept.refl _ _⟩
+    · split
+      · exact ⟨LastKeptExcept.refl _ _, LastKeptExcept.modify _ _ _⟩
+      · exact ⟨LastKeptExcept.refl _ _, LastKeptExcept.refl _ _⟩
+  | testReq =>
+    simp only
+    split
+    · exact ⟨LastKeptExcept.refl _ _, LastKeptExcept.modify _ _ _⟩
+    · exact ⟨LastKeptExcept.refl _ _, LastKeptExcept.refl _ _⟩
+
+/-- local path of `process_cell`: only circuit / exit entries stored under the cell's own id may be refreshed -/
+theorem onCell_local_touches {c : Cfg} (s : Node) (id : Nat) (early plain ok : Bool) (body : Body)
+    (hn : s.relays.get id = none) :
+    LastKeptExcept id s.circuits (s.onCell c id early plain ok body).circuits ∧
+    LastKeptExcept id s.exits (s.onCell c id early plain ok body).exits := by
+  unfold Node.onCell
+  simp only [hn]
+  split
+  · exact ⟨LastKeptExcept.refl _ _, LastKeptExcept.refl _ _⟩
+  · have h := dispatch_touches (c := c) s id
+      (match s.circuits.get id with
+        | some e => e.peer
+        | none => match s.exits.get id with
+          | some e => e.peer
+          | none => 0) body
+    exact ⟨h.1.trans (LastKeptExcept.modify _ _ _), h.2⟩
+
 end Ipv8.C09
